@@ -440,7 +440,17 @@ def install_minimal(reg):
         ]
 
     def inv0(c):
-        return shared(c, c.stack)
+        cl = shared(c, c.stack)
+        try:
+            hs, hseen = c.at_head(0, "stack"), c.at_head(0, "seen")
+        except (KeyError, AttributeError):
+            return cl
+        # proof step (not visible to callers): whatever is on the stack at the end of an iteration was on it at the head of the iteration
+        # or has been seen during the iteration - this is all the preservation of the next clause needs to know about pushes and pops
+        step = ("step.stack_grows_only_by_newly_seen_nodes", z3.ForAll([x], z3.Implies(
+            T.OnStack(c.stack, x), z3.Or(T.OnStack(hs, x), z3.And(c.seen[x], z3.Not(hseen[x]))))))
+        k = [nm for nm, _ in cl].index("found_traps_have_finished_nodes")
+        return cl[:k] + [step] + cl[k:]
 
     def inv1(c):
         v, seen, stack, node, succ, am, mt = c.sd, c.seen, c.stack, c.node, c.successors, c.all_minimal_traps, c.minimal_traps
